@@ -3,6 +3,7 @@ import Litep2pVerif.Proofs.Kad.CoordinatorOwned
 import Litep2pVerif.Proofs.Kad.CoordinatorQuorum
 import Litep2pVerif.Proofs.Kad.Executor
 import Litep2pVerif.Proofs.Kad.Serve
+import Litep2pVerif.Proofs.Kad.Events
 import Litep2pVerif.Generated.Consts
 import Litep2pVerif.Proofs.Node.Wiring
 /-!
@@ -385,6 +386,63 @@ example :
     engineIdle (run (drain s [(⟨4, 0, .reqResp⟩, .readFail)]) [.engine (.lookupDone 0 false []) []]).engine = true := by
   decide
 
+/-! ## The event channel: a full channel suspends the coordinator, nothing is dropped -/
+
+section EventChannel
+open Litep2pVerif.Kad.Events
+
+/-- **A terminal event is never dropped.** The coordinator hands every event to the user with
+`event_tx.send(ev).await` on a bounded channel (`Model/Kad/Events.lean`). For every capacity `cap > 0` and EVERY
+schedule of the three parties (the event loop reaching a send, the send running or suspending on the full channel,
+the user reading): what the user has read, followed by the channel content, the event held by the suspended send
+and the events the suspended loop has not sent yet, is exactly the sequence of events emitted, in emission order
+(conservation); the channel never holds more than `cap` events; and a user who keeps reading (`n ≥ pending` reads)
+has read exactly the emitted sequence - each event once, in order - with nothing left anywhere. -/
+theorem terminal_event_never_dropped {α : Type} (cap : Nat) (hcap : 0 < cap) (sched : List (Step α)) (n : Nat) :
+    let c := sched.foldl Chan.step ({ cap := cap } : Chan α)
+    c.all = emitted sched ∧ c.queue.length ≤ cap ∧
+    (c.pending ≤ n → (Chan.drain n c).got = emitted sched ∧ (Chan.drain n c).pending = 0) := by
+  intro c
+  have hall : c.all = emitted sched := by
+    have := steps_all sched ({ cap := cap } : Chan α)
+    simpa [Chan.all] using this
+  have hwf : WF c := steps_wf sched (fresh_wf cap hcap)
+  have hcapc : c.cap = cap := steps_cap sched _
+  refine ⟨hall, hcapc ▸ hwf.len, fun hn => ?_⟩
+  have := drain_all n c hwf hn
+  exact ⟨this.2.trans hall, this.1⟩
+
+/-- Non-vacuity: capacity 2, five failures emitted while the user does not read (the third send suspends, the loop
+waits), then the user reads: all five arrive, in order. -/
+example :
+    let sched : List (Step Nat) := [.emit 10, .run, .emit 11, .run, .emit 12, .run, .emit 13, .emit 14, .run, .run]
+    let c := sched.foldl Chan.step ({ cap := 2 } : Chan Nat)
+    c.queue = [10, 11] ∧ c.blocked = some 12 ∧ c.todo = [13, 14] ∧ c.got = [] ∧ c.pending = 5 ∧
+    (Chan.drain 5 c).got = [10, 11, 12, 13, 14] := by decide
+
+/-- The contrast (what the seeded change did): with `try_send` the event that finds the channel full is gone. -/
+theorem try_send_drops_witness :
+    let c := ([10, 11, 12] : List Nat).foldl Chan.emitTry ({ cap := 2 } : Chan Nat)
+    (Chan.drain 5 c).got = [10, 11] ∧ (Chan.drain 5 c).pending = 0 := by decide
+
+/-- **Every query terminates, also through a full event channel.** In the situation of `every_query_terminates`
+(dials concluded, opens answered, one allowed result per outstanding future handled, engine idle), whatever the
+capacity of the event channel and however the sends of the coordinator's events interleave with the user's reads
+(the channel may have been full any number of times): once the user has read `n ≥ pending` more events, for every
+operation ever started the user has read exactly one terminal event. -/
+theorem every_query_terminates_when_user_reads (s : State) (h : Reachable s) (hd : s.dialing = []) (ho : s.opening = [])
+    (rs : List (Fut × Res)) (hperm : (rs.map (·.1)).Perm s.futs)
+    (hall : ∀ x ∈ rs, Res.allowed x.1.kind x.2 = true) (hidle : engineIdle (drain s rs).engine = true)
+    (cap : Nat) (hcap : 0 < cap) (sched : List (Step (Qid × Bool))) (hem : emitted sched = (drain s rs).events)
+    (n : Nat) (hn : (sched.foldl Chan.step ({ cap := cap } : Chan (Qid × Bool))).pending ≤ n) :
+    ∀ q ∈ (drain s rs).started,
+      ((Chan.drain n (sched.foldl Chan.step ({ cap := cap } : Chan (Qid × Bool)))).got.filter (fun e => e.1 == q)).length = 1 := by
+  have h1 := (terminal_event_never_dropped cap hcap sched n).2.2 hn
+  rw [h1.1, hem]
+  exact (every_query_terminates s h hd ho rs hperm hall hidle).2.2
+
+end EventChannel
+
 /-! ## Inbound requests are answered and validated per configuration -/
 
 /-- **Manual validation mode never stores by itself.** For every history of inbound requests and user commands, in
@@ -444,6 +502,9 @@ theorem settle_covers_timeouts :
 #print axioms executor_exactly_one_result
 #print axioms executor_results_allowed
 #print axioms every_query_terminates
+#print axioms terminal_event_never_dropped
+#print axioms try_send_drops_witness
+#print axioms every_query_terminates_when_user_reads
 #print axioms manual_validation_never_stores
 #print axioms inbound_answered_per_kind
 #print axioms manual_update_never_adds
